@@ -1,4 +1,5 @@
 import BasicModel.Proto
+import BasicModel.Model.Renum
 import Driver.ReqLex
 import Driver.ReqVar
 import Driver.ReqLst
@@ -134,8 +135,9 @@ def stubLineRenum (changes : List (Nat × Nat)) (l : Line) : Line :=
 
 def runLine : Line := ⟨none, [.word .run]⟩
 
-def mkEnv (given : Line) : Env :=
-  { lex := fun s => if s == "RUN".toList then runLine else given, lineRenum := stubLineRenum }
+/-- the environment of the model runtime: the Lean lexer and the Lean `Line::renum` (no stubs) -/
+def mkEnv (_given : Line) : Env :=
+  { lex := Lex.lineNew, lineRenum := Lex.lineRenum }
 
 /-- one call of a session; returns the new state and the text it contributes to the answer -/
 def sesCall (s : Runtime) (call : String) : Runtime × String :=
@@ -161,7 +163,10 @@ def sesCall (s : Runtime) (call : String) : Runtime × String :=
     (match field.splitOn "~" with
      | [src, _] =>
        (match readSrcLine field with
-        | some line => (Runtime.enter (mkEnv line) s (strOfHex src), "e")
+        | some line =>
+          -- the tokens in the request come from the real lexer: cross-check the model's lexer on the way
+          let mark := if Lex.lineNew (strOfHex src) == line then "e" else "e!lex-differs"
+          (Runtime.enter (mkEnv line) s (strOfHex src), mark)
         | none => (s, "bad-call"))
      | _ => (s, "bad-call"))
   | _ => (s, "bad-call")
@@ -178,6 +183,7 @@ def answer (line : String) : String :=
   | "PARSE" :: rest => answerParse rest
   | "FIND" :: _ => "ok"
   | "LEX" :: rest => answerLex rest
+  | "RENUMLINE" :: rest => answerRenumLine rest
   | "C05" :: _ => "ok"
   | "C16" :: _ => "ok"
   | "VAR" :: rest => answerVar rest
